@@ -16,11 +16,16 @@
    whose pre-state satisfies an enabled predicate taints the behaviour and invariants are required
    of untainted behaviours only, so TLC explores past the known defects (DESIGN 2.3 item 5).
 
-   Not modelled: lookup counts and the inode store (forget/inode-number reservation); side effects
-   of failing operations (a parent or link source copied up before the operation fails). *)
+   The spec transcribes the code after the fix commits 3b1636e, 7b63330, f99fd89 (constant AsFound
+   brings the as-found behaviour back for the check's anti-vacuity run).
+   Not modelled: lookup counts and the inode store (forget/inode-number reservation, fix e708a31);
+   side effects of failing operations (a parent or link source copied up before the operation fails). *)
 EXTENDS Overlay, Json, SequencesExt
 
-CONSTANTS NLower, MaxOps, HasUpper, Known, UpperTypes, LowerTypes
+CONSTANTS NLower, MaxOps, HasUpper, Known, UpperTypes, LowerTypes,
+          AsFound     \* {} : the code as it is now. A subset of {"S5", "S14", "UDIR"} models the code as it was found,
+                      \* before the fix commits 3b1636e (S5), 7b63330 (S14), f99fd89 (UDIR): used by the check as an
+                      \* anti-vacuity self-test (TLC must then find the corresponding counterexample again)
 
 VARIABLES disk, mem, view, nops, taint, sm, init, hist
 vars == <<disk, mem, view, nops, taint, sm, init, hist>>
@@ -104,7 +109,9 @@ IMake(d, m, o, t, tg, fid) ==
   IF ~ParentVisible(d, m, o.p) THEN IFail(d, m)
   ELSE LET n == m[o.p] IN
        IF n # NoNode /\ ~n.wh THEN IFail(d, m)                                       \* EEXIST
-       ELSE LET setopq == t = "dir" /\ n # NoNode /\ ~UpperOnly(n)                   \* :1255 "if child dir has lower layers"
+       ELSE LET \* do_mkdir: a directory that replaces a whiteout node is always made opaque (fix 3b1636e);
+                \* as found: only "if child dir has lower layers", which a whiteout node never has
+                setopq == t = "dir" /\ n # NoNode /\ (IF "S5" \in AsFound THEN ~UpperOnly(n) ELSE TRUE)
                 r == CopyNodeUp(d, m, Parent(o.p), fid)
                 \* delete_whiteout (when the whiteout node is in the upper layer) is subsumed by the overwrite
                 new == [NoneN EXCEPT !.t = t, !.m = IF t = "sym" THEN 511 ELSE o.m % 4096, !.tg = tg, !.o = setopq, !.id = fid]
@@ -132,7 +139,9 @@ IRm(d, m, o, dir, fid) ==
                 kids == ChildrenOf(p)
             IN IF dir /\ ~isdir THEN IFail(d, m)                                      \* load_directory: ENOTDIR
                ELSE IF dir /\ \E k \in kids : m[k] # NoNode /\ ~m[k].wh THEN IFail(d, m)   \* ENOTEMPTY
-               ELSE IF ~dir /\ isdir /\ InUpper(m, p) THEN IFail(d, m)                \* the upper layer's unlink: EISDIR
+               \* unlink of a directory: EISDIR (fix f99fd89); as found only the upper layer's unlink refused it,
+               \* a lower-only directory was whiteouted as a whole
+               ELSE IF ~dir /\ isdir /\ ("UDIR" \notin AsFound \/ InUpper(m, p)) THEN IFail(d, m)
                ELSE
                LET \* :1884 delete the upper layer's whiteouts inside the directory
                    emptied == {k \in kids : dir /\ InUpper(m, p) /\ m[k] # NoNode /\ InUpper(m, k)}
@@ -141,7 +150,11 @@ IRm(d, m, o, dir, fid) ==
                    r == CopyNodeUp(d1, m1, Parent(p), fid)
                    inup == InUpper(m1, p)
                    popq == Head(MemAt(r[2], Parent(p)).stack).o                        \* :1910 cached opaque flag of the parent's upper inode
-                   need == ~UpperOnly(n) /\ ~(inup /\ popq)                            \* :1891-1912
+                   \* lower_layers_have_child (fix 7b63330): the topmost lower real inode of the parent that has
+                   \* the name decides (a whiteout there: nothing to hide); as found: !upper_layer_only()
+                   lows == SelectSeq(MemAt(r[2], Parent(p)).stack, LAMBDA ri : ri.l # 0 /\ r[1][ri.l][p].t # "none")
+                   lowerHas == lows # <<>> /\ r[1][Head(lows).l][p].t # "wh"
+                   need == (IF "S14" \in AsFound THEN ~UpperOnly(n) ELSE lowerHas) /\ ~(inup /\ popq)
                    d2 == IF inup THEN [r[1] EXCEPT ![0][p] = NoneN] ELSE r[1]
                    m2 == [q \in Paths |-> IF q = p \/ q \in Descendants(p) THEN NoNode ELSE r[2][q]]
                IN IF need
@@ -177,20 +190,15 @@ IOp(d, m, o, fid) ==
          [] OTHER            -> IModify(d, m, o, fid)
 
 (* ---- known findings as predicates over A-level terms (pre-state layers, view, operation) ---- *)
-NonMerging == {"file", "sym", "fifo", "odir"}
-LowerEntry == {"file", "dir", "odir", "sym", "fifo"}
 \* a visible node with xattrs (or such an ancestor) whose topmost entry is in a lower layer is copied up
 NeedsCopyUpWithX(d, v, p) ==
   \E q \in Paths : /\ (q = p \/ IsAncestor(q, p)) /\ v[q].t # "none" /\ v[q].x # {}
                    /\ EntryClass(d[0], q) \in {"none"}
+\* XCU = findings/ovl-copyup-xattr.md (copy-up drops xattrs), the only listed finding left. The predicates of the
+\* fixed findings (S5, S14, UDIR) are gone: the I spec now transcribes the fixed code (see AsFound).
 KF(k, d, v, o) ==
-  CASE k = "S5"  -> o.op = "mkdir" /\ EntryClass(d[0], o.p) = "wh" /\ TopLower(LowerSeq(d), o.p) \in {"dir", "odir"}
-    [] k = "S14" -> /\ o.op \in {"unlink", "rmdir"} /\ EntryClass(d[0], o.p) \in NonMerging \cup {"dir"}
-                    /\ TopLower(LowerSeq(d), o.p) \in LowerEntry
-                    /\ ~(EntryClass(d[0], o.p) = "dir" /\ TopLower(LowerSeq(d), o.p) \in {"dir", "odir"})
-    [] k = "XCU" -> \/ NeedsCopyUpWithX(d, v, o.p) \/ (o.op = "link" /\ NeedsCopyUpWithX(d, v, o.src))
+  CASE k = "XCU" -> \/ NeedsCopyUpWithX(d, v, o.p) \/ (o.op = "link" /\ NeedsCopyUpWithX(d, v, o.src))
                     \/ (o.op \in {"create", "mknod", "mkdir", "symlink", "link", "unlink", "rmdir"} /\ NeedsCopyUpWithX(d, v, Parent(o.p)) )
-    [] k = "UDIR" -> o.op = "unlink" /\ o.p \in Paths /\ v[o.p].t = "dir"
     [] OTHER -> FALSE
 
 (* ---- the model-checking instance ---- *)
